@@ -98,6 +98,9 @@ func (w *World) runOracles(pre *Snapshot, op Op, res *StepResult, post *Snapshot
 	if on("C19") {
 		w.oracleC19(post)
 	}
+	if on("C16") {
+		w.oracleC16(pre, op, res, post)
+	}
 }
 
 // ---------------------------------------------------------------------------------------------- C01
